@@ -77,6 +77,8 @@ def coerce(text, frm, to, node=None):
     if frm == EMPTY and to[0] in ('set', 'list'): return '[]'
     if frm == EMPTYD and to[0] in ('dict', 'ddict'): return '[]'
     if frm[0] == to[0] and frm[0] in ('list', 'set') and frm[1] == EMPTY: return text
+    if frm[0] in ('list', 'set') and to[0] == frm[0]:
+        return f'({atom(text)}.map (fun x__ => {coerce("x__", frm[1], to[1], node)}))'
     bad(node, f'cannot use a value of type {frm} where {to} is expected')
 
 def tuple_type(types):
@@ -299,6 +301,49 @@ def mutated_after(fnode):
         return out
     return after
 
+
+def _target_names(t, out):
+    if isinstance(t, ast.Name): out.add(t.id)
+    elif isinstance(t, (ast.Tuple, ast.List)):
+        for x in t.elts: _target_names(x, out)
+    elif isinstance(t, ast.Starred): _target_names(t.value, out)
+
+def reads_before_writes(stmts, written):
+    """names that may be read in the statements before the statements themselves assign them (flow-sensitive over if / for / try);
+    `written` (a set, updated) = names definitely assigned before / after"""
+    out = set()
+    for s in stmts:
+        if isinstance(s, ast.Assign):
+            out |= read_names([s.value]) - written
+            for t in s.targets:
+                for n in ast.walk(t):
+                    if isinstance(n, ast.Name) and isinstance(n.ctx, ast.Load) : out |= {n.id} - written
+                _target_names(t, written)
+        elif isinstance(s, ast.If):
+            out |= read_names([s.test]) - written
+            w1, w2 = set(written), set(written)
+            out |= reads_before_writes(s.body, w1)
+            out |= reads_before_writes(s.orelse, w2)
+            def leaves(b): return bool(b) and isinstance(b[-1], (ast.Continue, ast.Break, ast.Return, ast.Raise))
+            if leaves(s.body) and leaves(s.orelse): pass
+            elif leaves(s.body): written |= w2
+            elif leaves(s.orelse): written |= w1
+            else: written |= (w1 & w2)
+        elif isinstance(s, ast.For):
+            out |= read_names([s.iter]) - written
+            w = set(written); _target_names(s.target, w)
+            out |= reads_before_writes(s.body, w)
+            out |= reads_before_writes(s.orelse, set(written))
+        elif isinstance(s, ast.Try):
+            w = set(written)
+            out |= reads_before_writes(s.body, w)
+            for h in s.handlers: out |= reads_before_writes(h.body, set(written))
+            out |= reads_before_writes(s.orelse, w)
+            out |= reads_before_writes(s.finalbody, set(written))
+        else:
+            out |= read_names([s]) - written
+    return out
+
 # ----------------------------------------------------------------------------- expressions and statements
 
 class Fn(Stmts):
@@ -418,6 +463,13 @@ class Fn(Stmts):
     def expr_BinOp(self, e, env, B):
         op = type(e.op).__name__
         lt, lty = self.expr(e.left, env, B)
+        if op == 'Add' and isinstance(e.right, ast.List) and e.right.elts and (lty[0] == 'list' or lty == EMPTY):
+            items = [self.expr(x, env, B) for x in e.right.elts]
+            ety = lty[1] if lty != EMPTY else None
+            for _, t in items: ety = t if ety is None else join(ety, t, e)
+            rtext = '[' + ', '.join(coerce(t, t0, ety, e) for t, t0 in items) + ']'
+            if lty == EMPTY: return rtext, LIST(ety)
+            return f'({coerce(lt, lty, LIST(ety), e)} ++ {rtext})', LIST(ety)
         rt, rty = self.expr(e.right, env, B)
         if lty == INT and rty == INT and op in ('Add', 'Sub', 'Mult'):
             return f'({lt} {dict(Add="+", Sub="-", Mult="*")[op]} {rt})', INT
@@ -851,42 +903,46 @@ class Fn(Stmts):
             return self.unpack(target, value, s, env, go)
         bad(s, f'assignment target {ast.unparse(target)}')
 
+    def pattern(self, target, ty, env2, s):
+        """Lean pattern for an unpacking target against a value of type ty; binds the names in env2.  -> (pattern, refutable)"""
+        if isinstance(target, ast.Name):
+            if target.id == '_': return '_', False
+            if target.id in self._pat_names: bad(s, 'a name twice in an unpacking target')
+            self._pat_names.add(target.id)
+            env2[target.id] = ty
+            return lname(target.id), False
+        if isinstance(target, (ast.Tuple, ast.List)):
+            elts = target.elts
+            star = [i for i, x in enumerate(elts) if isinstance(x, ast.Starred)]
+            if ty[0] == 'tuple':
+                if star or len(ty) - 1 != len(elts): bad(s, 'unpacking a tuple of another length')
+                ps = [self.pattern(x, t, env2, s) for x, t in zip(elts, ty[1:])]
+                return '(' + ', '.join(p for p, _ in ps) + ')', any(r for _, r in ps)
+            if ty[0] == 'list':
+                if not star:
+                    ps = [self.pattern(x, ty[1], env2, s) for x in elts]
+                    return '[' + ', '.join(p for p, _ in ps) + ']', True
+                if star == [len(elts) - 1] and isinstance(elts[-1].value, ast.Name):
+                    ps = [self.pattern(x, ty[1], env2, s) for x in elts[:-1]]
+                    last = self.pattern(elts[-1].value, ty, env2, s)
+                    return ' :: '.join([p for p, _ in ps] + [last[0]]), True
+                bad(s, 'starred target that is not the last one')
+        bad(s, f'unpacking target {ast.unparse(target)} for a value of type {ty}')
+
     def unpack(self, target, value, s, env, go):
         B = []
         r = self.u.unpack(self, target, value, s, env, go)
         if r is not None: return r
         text, ty = self.expr(value, env, B)
-        elts = target.elts
-        names = []
-        star = None
-        for i, x in enumerate(elts):
-            if isinstance(x, ast.Starred) and isinstance(x.value, ast.Name):
-                if star is not None: bad(s, 'two starred targets')
-                star = i; names.append(x.value.id)
-            elif isinstance(x, ast.Name): names.append(x.id)
-            else: bad(s, f'unpacking target {ast.unparse(x)}')
-        if len(set(n for n in names if n != '_')) != len([n for n in names if n != '_']): bad(s, 'a name twice in an unpacking target')
+        if ty[0] == 'set':
+            if len(target.elts) != 1 or isinstance(target.elts[0], ast.Starred): bad(s, 'unpacking a set into several names (iteration order)')
+            text, ty = f'HdrPy.distinct {atom(text)}', LIST(ty[1])
         env2 = dict(env)
-        pats = ['_' if n == '_' else lname(n) for n in names]
-        if ty[0] == 'tuple':
-            if star is not None or len(ty) - 1 != len(names): bad(s, 'unpacking a tuple of another length')
-            for n, t in zip(names, ty[1:]):
-                if n != '_': env2[n] = t
-            return self.wrap(B, ('match', text, [('(' + ', '.join(pats) + ')', go(env2))]))
-        if ty[0] in ('list', 'set'):
-            if ty[0] == 'set':
-                if len(names) != 1 or star is not None: bad(s, 'unpacking a set into several names (iteration order)')
-                text = f'HdrPy.distinct {atom(text)}'
-            for i, n in enumerate(names):
-                if n != '_': env2[n] = (LIST(ty[1]) if i == star else ty[1])
-            if star is None:
-                pat = '[' + ', '.join(pats) + ']'
-            elif star == len(names) - 1:
-                pat = ' :: '.join(pats)
-            else:
-                bad(s, 'starred target that is not the last one')
-            return self.wrap(B, ('match', text, [(pat, go(env2)), ('_', ('raw', '.error .ValueError'))]))
-        bad(s, f'unpacking a value of type {ty}')
+        self._pat_names = set()
+        pat, refutable = self.pattern(target, ty, env2, s)
+        arms = [(pat, go(env2))]
+        if refutable: arms.append(('_', ('raw', '.error .ValueError')))
+        return self.wrap(B, ('match', text, arms))
 
     def call_stmt(self, c, s, env, go):
         f = c.func
@@ -1009,6 +1065,19 @@ class Fn(Stmts):
 
     def lvar(self, v):
         return lname(v)
+
+    def loop_vars(self, s, env, live, targets):
+        """the loop-carried variables: assigned in the body and read in a later iteration (before being assigned again) or after the loop"""
+        assigned = assigned_names(s.body, self.writes_map)
+        tnames = set()
+        _target_names(s.target, tnames)
+        carried = reads_before_writes(s.body, set(tnames)) | live
+        vars_ = sorted(v for v in assigned if v in carried and v not in tnames)
+        for v in vars_:
+            if v not in env: bad(s, f'{v} is assigned in the loop and used outside one iteration but not bound before the loop')
+        for t in tnames:
+            if t in live and t in env: bad(s, 'loop variable used after the loop')
+        return vars_
 
 # ----------------------------------------------------------------------------- units
 
